@@ -67,6 +67,33 @@ Proof.
   apply take_drop_agree. lia.
 Qed.
 
+(* An ASCII lead byte needs ONE byte of look-ahead: the decoder looks at the bytes behind the first only when the
+   first is >= 128.  (First step of the margin refinement 4/8/12/16/24 -> 1..5; the per-state lemmas of
+   LexPrefixStates.v ff. still use [next_agree].) *)
+Lemma decode_rune_prefix_ascii (a c : bstr) x : (x <? 128)%N = true -> take 1 a = [x] -> take 1 c = [x] -> decode_rune a = decode_rune c.
+Proof.
+  intros Hx Ha Hc. destruct a as [|a0 a]; [discriminate|]. destruct c as [|c0 c]; [discriminate|].
+  cbn [take] in Ha, Hc. inversion Ha; inversion Hc; subst. unfold decode_rune. rewrite Hx. reflexivity.
+Qed.
+
+Lemma next_agree_ascii l c : 0 <= l_pos l -> l_pos l + 1 <= h ->
+  byte_at inp1 n1 (l_pos l) = Ok c -> c < 128 -> next inp1 n1 l = next inp2 n2 l.
+Proof.
+  intros H0 H Hb Hc. pose proof h_le1. pose proof h_le2. unfold next.
+  destruct (n1 <=? l_pos l) eqn:E1; [lia|]. destruct (n2 <=? l_pos l) eqn:E2; [lia|].
+  destruct (l_pos l <? 0); [reflexivity|].
+  pose proof (take_drop_agree (Z.to_nat (l_pos l)) 1 ltac:(lia)) as T.
+  unfold byte_at in Hb. destruct ((l_pos l <? 0) || (n1 <=? l_pos l)); [discriminate|].
+  destruct (drop (Z.to_nat (l_pos l)) inp1) as [|x t1] eqn:D1; [discriminate|]. inversion Hb; subst c.
+  rewrite (decode_rune_prefix_ascii (x :: t1) (drop (Z.to_nat (l_pos l)) inp2) x); [reflexivity| |reflexivity|].
+  - apply N.ltb_lt. lia.
+  - rewrite <- T. reflexivity.
+Qed.
+
+Lemma peek_agree_ascii l c : 0 <= l_pos l -> l_pos l + 1 <= h ->
+  byte_at inp1 n1 (l_pos l) = Ok c -> c < 128 -> peek inp1 n1 l = peek inp2 n2 l.
+Proof. intros. unfold peek. rewrite (next_agree_ascii l c) by assumption. reflexivity. Qed.
+
 Lemma peek_agree l : 0 <= l_pos l -> l_pos l + 4 <= h -> peek inp1 n1 l = peek inp2 n2 l.
 Proof. intros. unfold peek. rewrite next_agree by assumption. reflexivity. Qed.
 
